@@ -739,22 +739,11 @@ func rulesC05(w *World, r *Report) {
 	}
 	consumers := w.canReach(tg)
 	// the field loop: bound is len(cls.FieldName) — a loop whose header compares a φ with len(field of the ClassDef parameter)
-	var loop *loopInfo
-	var counter ssa.Value // indexes the current iteration's definition name: the counter φ, or counter+1 in a range loop
-	for _, lp := range naturalLoops(ro) {
-		for b := range lp.body {
-			iff, ok := b.Instrs[len(b.Instrs)-1].(*ssa.If)
-			if !ok {
-				continue
-			}
-			bo, ok := iff.Cond.(*ssa.BinOp)
-			if !ok || bo.Op != token.LSS {
-				continue
-			}
-			if ix := iterationIndex(iff.Cond, lp.header); ix != nil && strings.HasPrefix(f.term(bo.Y).Key(), "len(") {
-				loop, counter = lp, ix
-			}
-		}
+	// (in the reader itself or in a function extracted from it, rules_c05loop.go)
+	helpers := w.privateHelpers(ro)
+	lf, loop, counter := w.fieldLoopOf(ro, helpers) // counter indexes the current iteration's definition name: the counter φ, or counter+1 in a range loop
+	if lf != nil {
+		f = w.flow(lf)
 	}
 	if loop == nil {
 		r.undecided("C05.R1 one wire value per definition field", "(*Decoder).readObject · field loop", w.pos(ro.Pos()), "no loop bounded by len(definition field names) found")
@@ -764,7 +753,7 @@ func rulesC05(w *World, r *Report) {
 	// second condition ("all Go fields filled", "enough read") leaves the remaining
 	// wire values of the instance on the stream
 	{
-		idx := errIndex(ro.Signature)
+		idx := errIndex(lf.Signature)
 		nExit, badExit := 0, ""
 		for b := range loop.body {
 			iff, ok := b.Instrs[len(b.Instrs)-1].(*ssa.If)
@@ -776,7 +765,7 @@ func rulesC05(w *World, r *Report) {
 					continue
 				}
 				nExit++
-				if bo, isBo := iff.Cond.(*ssa.BinOp); isBo && bo.Op == token.LSS && iterationIndex(iff.Cond, loop.header) != nil && strings.HasPrefix(f.term(bo.Y).Key(), "len(") {
+				if ix, _ := fieldLoopTest(iff.Cond, loop.header); ix != nil {
 					continue // the definition counter
 				}
 				// the failing side of an error test
@@ -879,7 +868,6 @@ func rulesC05(w *World, r *Report) {
 	var lookupFn *ssa.Function
 	// the object reader and the helpers extracted from it; a value that is a
 	// helper's parameter stands for the arguments at the helper's call sites
-	helpers := w.privateHelpers(ro)
 	var scopeFns []*ssa.Function
 	for fn := range helpers {
 		scopeFns = append(scopeFns, fn)
@@ -910,6 +898,8 @@ func rulesC05(w *World, r *Report) {
 						one = kn && len(names) > 0
 						for _, nameArg := range names {
 							good := false
+							// (`fldName = names[i]` kept in a variable that a closure captures: the cell's value)
+							nameArg = cellValueAt(nameArg)
 							if ld, isLd := nameArg.(*ssa.UnOp); isLd && ld.Op == token.MUL {
 								if ia, isIA := ld.X.(*ssa.IndexAddr); isIA && ia.Index == counter {
 									good = true
